@@ -9,7 +9,10 @@ Plugins == {"logging", "size_limit", "gzip", "headers", "request-id"}
 SeqsUpTo(S, n) == UNION {[1..k -> S] : k \in 0..n}
 \* long_session_tokens: the same, the handshake says "Connection: keep-alive, Upgrade" (a token list, as browsers send)
 \* long_session: 1.6 s of silence in the middle, with the end-to-end handler timeout configured as 1 s
-Scripts == {"ping_pong_small", "sizes_c2s", "sizes_s2c", "interleaved", "burst_s2c", "empty_and_big", "binary_mix", "long_session", "long_session_tokens"}
+\* duplex: both sides write ten messages of about 100 kB back to back while reading the other side's -- the two directions
+\* of the tunnel are busy at the same time
+Scripts == {"ping_pong_small", "sizes_c2s", "sizes_s2c", "interleaved", "burst_s2c", "empty_and_big", "binary_mix", "long_session", "long_session_tokens",
+            "duplex"}
 Cases(n) == [chain : SeqsUpTo(Plugins, n), script : Scripts, closer : {"client", "server"}, ids : BOOLEAN]
 
 \* o = [upgraded, c2s_sent, c2s_got, s2c_sent, s2c_got (sequences of "type:len:digest"), close_seen (the non-closing side saw the close)]
